@@ -36,7 +36,7 @@ def run_harness(mod, tier, seed, outpath, n=None, replay=None, race=False):
         cmd += ["-n", str(n)]
     if replay:
         cmd += ["-replay", replay]
-    t = getattr(mod, "HARNESS_TIMEOUT", {"quick": 600, "thorough": 3600})[tier]
+    t = getattr(mod, "HARNESS_TIMEOUT", {"quick": 1800, "thorough": 7200})[tier]
     env = dict(os.environ)
     env.update(getattr(mod, "HARNESS_ENV", {}))
     return core.sh(cmd, timeout=t, cwd=core.ROOT, env=env)
